@@ -77,8 +77,22 @@ func runShutChild(cfg runCfg, emit func(Case)) error {
 	_ = c0.PutDDoc(ctxBg, "dd", mkDesignDoc([]ViewDef{{Name: "v0", Map: 0}}))
 	feedDone := make(chan struct{})
 	feedTerm := make(chan bool)
-	_ = c1.StartDCPFeed(ctxBg, sgbucket.FeedArguments{ID: "bg", Backfill: sgbucket.FeedNoBackfill, Terminator: feedTerm, DoneChan: feedDone},
-		func(sgbucket.FeedEvent) bool { return true }, nil)
+	// a bystander feed that checkpoints and has something to checkpoint: on its way out it writes to the bucket
+	feedGot := make(chan struct{}, 16)
+	_ = c1.StartDCPFeed(ctxBg, sgbucket.FeedArguments{ID: "bg", Backfill: sgbucket.FeedNoBackfill, CheckpointPrefix: "cp", Terminator: feedTerm, DoneChan: feedDone},
+		func(sgbucket.FeedEvent) bool {
+			select {
+			case feedGot <- struct{}{}:
+			default:
+			}
+			return true
+		}, nil)
+	_ = c0.Set("seen", 0, nil, []byte(`{"a":2}`))
+	select {
+	case <-feedGot:
+	case <-time.After(3 * time.Second):
+		say("NOTE bystander feed did not receive its first event")
+	}
 	var manualTimer int32
 	if in.Racer == "timer" {
 		// something to expire: an expiry in the past.  Firings of the real timer are parked for good; the
